@@ -104,7 +104,8 @@ class Checker:
                           f"derived: {detail}")
         st = "ok" if ok else ("undecided" if undecided else "violation")
         self.obligations.append({"rule": rule, "construct": construct, "status": st,
-                                 "detail": detail, "loc": loc, "nontrivial": nontrivial})
+                                 "detail": detail, "loc": loc, "nontrivial": nontrivial,
+                                 "firm": bool(firm)})
         return ok
 
     def violation(self, rule, construct, detail="", loc=""):
@@ -153,7 +154,7 @@ class Checker:
         if not entries:
             return
         for o in self.obligations:
-            if o["status"] != "violation" or o["rule"] in FIRM_RULES:
+            if o["status"] != "violation" or o["rule"] in FIRM_RULES or o.get("firm"):
                 continue
             f = (o["loc"] or "").split(":")[0]
             hit = [e for e in entries if f and f in e[3]]
